@@ -402,6 +402,7 @@ func c14Funcs(c *Case) {
 	}
 	fn := fns[g.Intn(len(fns))]
 	var e xref.Expr
+	stackedArg := false // the argument carries a predicate AFTER another one: outside the fragments of C02/C03, no reference denotation is claimed for it
 	flat := func() xref.Expr {
 		p := xref.Path{}
 		n := 1 + g.Intn(2)
@@ -413,10 +414,35 @@ func c14Funcs(c *Case) {
 			p.Steps = append(p.Steps, &xref.Step{Axis: "child", Abbrev: "child", Test: xref.Test{Kind: g.Pick("*", "node", "*")}})
 		}
 		if g.Chance(0.15) {
+			stackedArg = false
 			return xref.Path{Steps: []*xref.Step{{Axis: "child", Abbrev: "child", Test: xref.Test{Kind: "name", Local: "nosuch"}}}}
 		}
 		if g.Chance(0.2) {
+			stackedArg = false
 			return xref.Path{Steps: []*xref.Step{xgen.SelfDot()}}
+		}
+		if last := p.Steps[len(p.Steps)-1]; last.Axis == "child" && g.Chance(0.35) {
+			// the argument's first node is found through predicates, stacked ones included: X[2], X[last()], X[p][n],
+			// X[position() > 1][1] - and found again on every later evaluation of the same compiled function
+			tr := xref.Call{Name: "true"}
+			gt := xref.Bin{Op: ">", L: xref.Call{Name: "position"}, R: xref.Num{Lex: "1"}}
+			at := xref.Path{Steps: []*xref.Step{{Axis: "attribute", Abbrev: "@", Test: xref.Test{Kind: "*"}}}}
+			k := g.Intn(6)
+			stackedArg = k >= 2
+			switch k {
+			case 0:
+				last.Preds = []xref.Expr{xref.Num{Lex: g.Pick("1", "2", "3")}}
+			case 1:
+				last.Preds = []xref.Expr{xref.Call{Name: "last"}}
+			case 2:
+				last.Preds = []xref.Expr{tr, xref.Num{Lex: g.Pick("1", "2")}}
+			case 3:
+				last.Preds = []xref.Expr{gt, xref.Num{Lex: g.Pick("1", "2")}}
+			case 4:
+				last.Preds = []xref.Expr{at, xref.Num{Lex: g.Pick("1", "2")}}
+			default:
+				last.Preds = []xref.Expr{xref.Num{Lex: "2"}, tr}
+			}
 		}
 		if g.Chance(0.25) {
 			// a path argument that ENDS in '.' or self::node() is still a path, not the context node
@@ -424,12 +450,36 @@ func c14Funcs(c *Case) {
 		}
 		return p
 	}
-	mode := g.Intn(3)
+	mode := g.Intn(4)
 	switch mode {
 	case 0:
 		e = xref.Call{Name: fn}
 	case 1:
 		e = xref.Call{Name: fn, Args: []xref.Expr{flat()}}
+	case 3:
+		// the function WITH a node-set argument inside a predicate: evaluated once per candidate by one compiled
+		// function; compared with a value the function takes somewhere in the document
+		arg := flat()
+		var lits []string
+		for _, n := range d.Nodes {
+			if n.Kind == xdoc.Element || n.Kind == xdoc.Attr {
+				if v, _ := xref.SafeEval(xref.Call{Name: fn}, xref.NewCtx(n)); v != nil {
+					if sv, isStr := v.(string); isStr && sv != "" {
+						lits = append(lits, sv)
+					}
+				}
+			}
+		}
+		lit := "nosuch"
+		if len(lits) > 0 {
+			lit = lits[g.Intn(len(lits))]
+		}
+		cmp := xref.Bin{Op: g.Pick("=", "=", "!="), L: xref.Call{Name: fn, Args: []xref.Expr{arg}}, R: xref.Str{V: lit}}
+		e = xref.Path{Abs: true, Steps: []*xref.Step{xgen.DSlash(), {Axis: "child", Abbrev: "child", Test: xref.Test{Kind: "*"}, Preds: []xref.Expr{cmp}}}}
+		c.Count("fn-with-argument-in-predicate")
+		if !stackedArg {
+			mode = 2
+		}
 	default:
 		// inside a predicate: //node()[fn() = 'value of some node'] resp. //@*[...]
 		target := d.Nodes[g.Intn(len(d.Nodes))]
@@ -457,6 +507,10 @@ func c14Funcs(c *Case) {
 	}
 	src := xref.Render(e)
 	c.Count("fn:" + fn)
+	if stackedArg && (mode == 1 || mode == 3) {
+		c14StackedArg(c, d, ctx, fn, e, mode)
+		return
+	}
 	if mode == 2 {
 		want, ok, why := refNodeSet(e, xref.NewCtx(ctx))
 		if !ok {
@@ -479,4 +533,90 @@ func c14Funcs(c *Case) {
 	c.SampleEvery(4001, func() interface{} {
 		return map[string]interface{}{"family": "funcs", "expr": src, "ctx": ctx.Label(), "value": fmtValue(want), "doc": d.XML()}
 	})
+}
+
+// c14StackedArg: name functions over an argument whose first node is found through STACKED predicates (X[p][n]).
+// No reference denotation is claimed for such an argument (positional predicates behind another predicate are outside
+// the fragments of C02/C03); what the function must report is the name of the first node, in document order, of what
+// THE ENGINE ITSELF selects for that argument from the same context node (a freshly compiled argument, Select) - the
+// first time and every later time the same compiled function is asked, at the top level (mode 1) and once per
+// candidate inside a predicate (mode 3).
+func c14StackedArg(c *Case, d *xdoc.Doc, ctx *xdoc.Node, fn string, e xref.Expr, mode int) {
+	var call xref.Call
+	if mode == 1 {
+		call = e.(xref.Call)
+	} else {
+		call = e.(xref.Path).Steps[1].Preds[0].(xref.Bin).L.(xref.Call)
+	}
+	arg := call.Args[0]
+	if c.expensive(e, d) {
+		return
+	}
+	src, argSrc := xref.Render(e), xref.Render(arg)
+	det := func() map[string]interface{} { return docDetail(d, ctx) }
+	ace, fce := c.compile(argSrc, det), c.compile(src, det)
+	if ace == nil || fce == nil {
+		return
+	}
+	fnAt := func(at *xdoc.Node) (string, bool) {
+		sel := c.RunSelect(ace, at)
+		if sel.Aborted() {
+			return "", false
+		}
+		var first *xdoc.Node
+		for _, n := range sel.Nodes {
+			if first == nil || n.Ord < first.Ord {
+				first = n
+			}
+		}
+		if first == nil {
+			return "", true
+		}
+		v, _ := xref.SafeEval(xref.Call{Name: fn}, xref.NewCtx(first))
+		sv, _ := v.(string)
+		return sv, true
+	}
+	c.Count("stacked-predicate-argument")
+	if mode == 1 {
+		other := d.Nodes[(ctx.Ord*7+3)%len(d.Nodes)]
+		nontrivial := false
+		for round, at := range []*xdoc.Node{ctx, other, ctx, ctx.Doc.Root.Children[0], ctx} {
+			want, ok := fnAt(at)
+			if !ok {
+				c.Skip("argument aborted")
+				return
+			}
+			got := c.RunEvaluate(fce, at)
+			if got.Kind != "string" || got.S != want {
+				dd := docDetail(d, at)
+				dd["expr"], dd["expected"], dd["observed"], dd["evaluation"] = src, fmt.Sprintf("%q (the %s of the first node the engine selects for %s)", want, fn, argSrc), got.String(), round+1
+				c.Violation("VALUE", dd)
+				return
+			}
+			nontrivial = nontrivial || want != ""
+		}
+		if nontrivial {
+			c.Nontrivial(fmt.Sprintf("s|%s|%d|%d", src, c.Index/9, ctx.Ord))
+		}
+		return
+	}
+	cmp := e.(xref.Path).Steps[1].Preds[0].(xref.Bin)
+	lit := cmp.R.(xref.Str).V
+	var want xref.NodeSet
+	for _, n := range d.Nodes {
+		if n.Kind != xdoc.Element {
+			continue
+		}
+		v, ok := fnAt(n)
+		if !ok {
+			c.Skip("argument aborted")
+			return
+		}
+		if (v == lit) == (cmp.Op == "=") {
+			want = append(want, n)
+		}
+	}
+	if _, good := c.checkSelectSet(fce, src, ctx, want); good && len(want) > 0 {
+		c.Nontrivial(fmt.Sprintf("sp|%s|%d", src, c.Index/9))
+	}
 }
